@@ -198,8 +198,8 @@ OBLIGATIONS = [
      "what": "layout is not meaning: the real compile() on the real parse tree of a template whose tokens are moved as if dl "
              "line breaks and dc blanks were inserted before token k yields the same ops (shared harness with C08.S1, which "
              "also checks the source map)",
-     "cases": list(range(6)), "timeout": {"quick": 280, "thorough": 900},
-     "bounds": "6 templates covering every statement and block kind; k over every token, dl and dc unbounded non-negative "
+     "cases": {"quick": list(range(6)), "thorough": list(range(36))}, "timeout": {"quick": 280, "thorough": 900},
+     "bounds": "quick: 6 templates, thorough: + 30 programs sampled from families F1-F4. 6 templates covering every statement and block kind; k over every token, dl and dc unbounded non-negative "
                "integers; token texts unchanged (comments and blank characters never reach the parser: lexer, enumerated in E6)",
      "encodes": ["explorerscript.ssb_converting.ssb_compiler.ExplorerScriptSsbCompiler.compile",
                  "explorerscript.ssb_converting.compiler.compiler_visitor.statement_visitor.StatementVisitor"],
